@@ -264,6 +264,23 @@ def load(path_kind, lines, nt, scratch):
         if r.returncode != 0:
             raise core.HarnessError("child interpreter failed: " + r.stderr[-300:])
         return pint.UnitRegistry(p, cache_folder=cf, **kw)
+    if path_kind == "same-main-file-elsewhere-cached":
+        # two directories hold a byte-identical main file whose '@import part2.txt' means a DIFFERENT file in each;
+        # both are loaded through one disk-cache folder (two checkouts sharing ~/.cache/pint): the second registry
+        # must read ITS OWN part2
+        k = 1
+        da, db = os.path.join(scratch, "dir_a"), os.path.join(scratch, "dir_b")
+        os.makedirs(da, exist_ok=True)
+        os.makedirs(db, exist_ok=True)
+        wrong = [ln.replace("7 * ua", "9 * ua").replace("3 * ub", "4 * ub").replace("offset: 5", "offset: 6") for ln in lines[k:]]
+        for d, body in ((da, wrong), (db, lines[k:])):
+            with open(os.path.join(d, "main.txt"), "w", encoding="utf-8") as fh:
+                fh.write("\n".join(lines[:k]) + "\n@import part2.txt\n")
+            with open(os.path.join(d, "part2.txt"), "w", encoding="utf-8") as fh:
+                fh.write("\n".join(body) + "\n")
+        cf = os.path.join(scratch, "cache")
+        pint.UnitRegistry(os.path.join(da, "main.txt"), cache_folder=cf, **kw)
+        return pint.UnitRegistry(os.path.join(db, "main.txt"), cache_folder=cf, **kw)
     if path_kind == "import-edited":
         # a main file importing a second one, loaded through the disk cache; then ONLY the imported file is edited
         # and the registry is built again from the same cache folder: the cache must notice
@@ -307,7 +324,7 @@ def load(path_kind, lines, nt, scratch):
 
 
 LAYOUTS = ["plain", "spaces", "comments", "tabs"]
-PATHS = ["lines", "file", "import", "cold-cache", "warm-cache", "define", "import-early", "import-edited", "cache-from-another-process"]
+PATHS = ["lines", "file", "import", "cold-cache", "warm-cache", "define", "import-early", "import-edited", "cache-from-another-process", "same-main-file-elsewhere-cached"]
 
 
 def diff_keys(a, b, skip=()):
@@ -602,7 +619,7 @@ MANIFEST = {
     "text": "The bundled files are compared entry by entry with R1 (every spelling -> unit, symbol, aliases, converter kind and offset, every prefix spelling and value, transitive group and system membership, "
     "context names/aliases/defaults/rule counts, defaults). Three generated 34-line definition files (prefixes, base/derived units in a DAG with rational factors, placeholder symbol, aliases on the unit line and on @alias lines — probed bare, prefixed by name and by symbol, and pluralised —, an offset and a log "
     "unit, four groups with 'using' (incl. two that use two groups at once, the default group first and last), a system with both rule forms, a context with defaults/rules/redefinition, defaults) are loaded in EVERY permutation of 5 (6 thorough) free unit/prefix lines, cycling through 4 "
-    "layouts x 9 loading paths (lines, file, @import split, cold and warm disk cache, one define() per statement, an imported file edited between two cached loads, a disk cache written by another interpreter process with another hash salt) in float, Decimal and Fraction: a 67-key read-only observation vector must equal R1's reading "
+    "layouts x 10 loading paths (a byte-identical main file in another directory loaded through the same disk cache, lines, file, @import split, cold and warm disk cache, one define() per statement, an imported file edited between two cached loads, a disk cache written by another interpreter process with another hash salt) in float, Decimal and Fraction: a 67-key read-only observation vector must equal R1's reading "
     "(names, symbols, dimensionality, exact factors, roots, memberships) and the canonical loading's vector (conversions, system base units, context conversions, listings). 36 ill-formed shapes x 2 positions x 2 "
     "types must raise at load or first use.",
     "note": "Trusted: R1. System base-unit choice and context arithmetic are only compared across loadings here (absolute semantics: C14, C11). define()-after-construction listings are C13's subject and are not "
